@@ -58,6 +58,9 @@ class EvalMixin:
 
     # ------------------------------------------------------------------ names
     def lookup(self, st, name):
+        if st.spec and name in ("result", "exc", "yielded") and name in st.res:
+            # the contract's specials win over an equally named local variable of the function (`result = f(...)`)
+            return st.res[name]
         f = st.fid
         while f is not None:
             fr = st.frames[f]
@@ -425,9 +428,9 @@ class EvalMixin:
         if cont.k == "tuple" or cont.k == "cset":
             return z3.Or(*[self.eq(st, x, y) for y in cont.x]) if cont.x else z3.BoolVal(False)
         if cont.k == "dict":
-            return z3.Select(self.dom_of(st, cont), box(x))
+            return z3.Select(self.dom_of(st, cont), self.kbox(st, x))
         if cont.k == "sdict":
-            return z3.Select(cont.t[0], box(x))
+            return z3.Select(cont.t[0], self.kbox(st, x))
         if cont.k in ("list", "seq"):
             s = cont.t if cont.k == "seq" else self.seq_of(st, cont)
             return z3.Contains(s, z3.Unit(box(x)))
@@ -601,7 +604,7 @@ class EvalMixin:
             return self.may_raise(st, z3.And(i >= 0, i < n), "IndexError", k)
         if base.k in ("dict", "sdict"):
             dom, mp = self.as_sdict(st, base)
-            kb = box(idx)
+            kb = self.kbox(st, idx)
             h = self.key_hint(base, idx)
             return self.may_raise(st, z3.Select(dom, kb), "KeyError",
                                   lambda s: [Res(s, self.from_val(s, z3.Select(mp, kb), h) if h else SV("val", z3.Select(mp, kb)))])
@@ -678,6 +681,11 @@ class EvalMixin:
             return [Res(st, SV("meth", (obj, attr)))]
         if k == "inst" and obj.h == "Lock" and attr in ("acquire", "release", "locked"):
             return [Res(st, SV("meth", (obj, attr)))]
+        if k == "inst" and attr in ("transform", "set") and self.is_pclass(obj.h) and self.find_member(obj.h, attr) is None:
+            return [Res(st, SV("meth", (obj, attr)))]
+        if k == "val" and obj.h and "|" in obj.h and "[" not in obj.h and not st.spec:
+            # union of exact classes: fork on the class, then the attribute is that of the instance
+            return self.union_attr(st, obj, obj.h.split("|"), attr)
         if k == "inst":
             if attr == "__class__":
                 if obj.x in ("exc", "sub"):
@@ -695,6 +703,15 @@ class EvalMixin:
                     fk = self.func_kind(n)
                     f = SV("func", n, x={"module": p, "env": None, "cls": c, "qual": c + "." + attr})
                     if fk == "property":
+                        if st.spec:
+                            # a property whose body is not a pure expression of fields cannot be read in a contract: the name then
+                            # denotes the (unconstrained) heap cell of that name -- contracts use spec functions instead
+                            saved_fid, saved_depth = st.fid, st.depth
+                            try:
+                                return self.call(st, f, [obj], {})
+                            except SpecError:
+                                st.fid, st.depth = saved_fid, saved_depth
+                                return [Res(st, SV("val", self.hget(st, attr, obj.t)))]
                         return self.call(st, f, [obj], {})
                     if fk == "staticmethod":
                         return [Res(st, f)]
@@ -778,6 +795,20 @@ class EvalMixin:
             # attributes stored on function objects (wrapper.debug): one heap cell per (function node, attr)
             return [Res(st, SV("val", self.hget(st, "fattr:" + attr, z3.IntVal(0))))]
         raise Unsupported("attribute %s of %s" % (attr, k))
+
+    def union_attr(self, st, obj, alts, attr):
+        r = Val.rv(obj.t)
+        cid = self._register_class(alts[0])
+        if len(alts) == 1:
+            st.assume(clsof(r) == cid)
+            return self.getattr(st, SV("inst", r, h=alts[0]), attr)
+        out = []
+        for s2, b in self.fork(st, clsof(r) == cid, "is:" + alts[0]):
+            if b:
+                out.extend(self.getattr(s2, SV("inst", r, h=alts[0]), attr))
+            else:
+                out.extend(self.union_attr(s2, obj, alts[1:], attr))
+        return out
 
     def class_of_val(self, v):
         ct = self.ct
